@@ -101,7 +101,7 @@ PROFILES = {
         c(Ops=CORE_OPS, MaxSeq=6),
         [sim(150, 30, Keys={1, 2, 3}, MaxSeq=24, MaxTables=6, MaxHist=30, Ops=CORE_OPS, WriteBias=4),
          edges(6, 80000, timeout=2400, Ops=CORE1, MaxSeq=6, MinLen=9),
-         drv(400, 400, DRIVE_W), deep(12)]),
+         drv(120, 300, DRIVE_W), deep(12)]),
     # C02 snapshots keep their view
     "C02": tree_profile(
         6, ["READ", "SCAN", "SCANX", "SNAPRES", "OPFAIL"],
@@ -113,7 +113,7 @@ PROFILES = {
         [sim(150, 30, Keys={1, 2, 3}, MaxSeq=24, MaxTables=6, MaxHist=30, MaxSnaps=2,
              Ops=SNAP_OPS | {"reopen"}, WriteBias=4),
          edges(8, 80000, timeout=2400, Ops=SNAP_OPS, MaxSeq=5, MaxSnaps=2, MaxHist=4, MinLen=8),
-         drv(400, 400, DRIVE_SNAP_W)],
+         drv(120, 300, DRIVE_SNAP_W)],
         blobs=[None, None, None, BLOBS[1], BLOBS[7]], val_alphas=[0, 1, 2], scans={"prob": 0.25, "burst": 1}),
     # C03 scans: bounds, prefixes, both ends, overlay
     "C03": tree_profile(
@@ -125,7 +125,7 @@ PROFILES = {
         c(Ops=SNAP_OPS, MaxSeq=6, MaxSnaps=2, MaxHist=5),
         [sim(80, 30, Keys={1, 2, 3}, MaxSeq=24, MaxTables=6, MaxHist=30, MaxSnaps=2, MaxSealed=2,
              Ops=SNAP_OPS | {"reopen", "ingest"}, WriteBias=4),
-         drv(300, 300, dict(DRIVE_SNAP_W, ingest=1.0))],
+         drv(100, 300, dict(DRIVE_SNAP_W, ingest=1.0))],
         scans={"prob": 0.6, "burst": 2}, blobs=[None, None, None, BLOBS[1], BLOBS[7]], val_alphas=[0, 1]),
     # C04 reopen restores exactly the flushed state
     "C04": tree_profile(
@@ -137,7 +137,7 @@ PROFILES = {
         c(Ops=CORE_OPS | {"ingest"}, MaxSeq=6),
         [sim(150, 30, Keys={1, 2, 3}, MaxSeq=24, MaxTables=6, MaxHist=30, Ops=CORE_OPS | {"ingest"}, WriteBias=4),
          edges(6, 80000, timeout=2400, Ops=CORE1, MaxSeq=6, MinLen=9),
-         drv(400, 400, dict(DRIVE_W, reopen=2))],
+         drv(120, 300, dict(DRIVE_W, reopen=2))],
         blobs=[None, None, None, BLOBS[1], BLOBS[0], BLOBS[7]], val_alphas=[0, 1, 2]),
     # C07 structure of every published version, metadata
     "C07": tree_profile(
@@ -149,7 +149,7 @@ PROFILES = {
         c(Ops=CORE_OPS, MaxSeq=6),
         [sim(150, 30, Keys={1, 2, 3}, MaxSeq=24, MaxTables=6, MaxHist=30, Ops=CORE_OPS | {"ingest"}, WriteBias=4),
          edges(6, 80000, timeout=2400, Ops=CORE1, MaxSeq=6, MinLen=9),
-         drv(400, 400, dict(DRIVE_W, ingest=0.5))]),
+         drv(120, 300, dict(DRIVE_W, ingest=0.5))]),
     # C08 key-value separation is invisible
     "C08": tree_profile(
         6, ["READ", "SCAN", "SCANX", "SNAPRES", "DANGLE", "PTR", "INVENT", "LOST", "OPFAIL"],
@@ -160,7 +160,7 @@ PROFILES = {
         c(Ops=CORE1 | {"snap"}, MaxSeq=6, MaxSnaps=1, BigVals={2, 3}),
         [sim(120, 30, Keys={1, 2, 3}, MaxSeq=24, MaxTables=6, MaxHist=30, MaxSnaps=2, MaxSealed=2,
              BigVals={2, 3}, Ops=CORE1 | {"snap"}, WriteBias=4),
-         drv(400, 400, DRIVE_SNAP_W)],
+         drv(120, 300, DRIVE_SNAP_W)],
         blobs=BLOBS, val_alphas=[1, 1, 2], scans={"prob": 0.3, "burst": 1},
         regress=["findings/C09-blob-id-reuse.replay.json"]),
     # C09 blob garbage statistics
@@ -173,7 +173,7 @@ PROFILES = {
         c(Ops=CORE1, MaxSeq=6, BigVals={2, 3}),
         [sim(120, 30, Keys={1, 2, 3}, MaxSeq=24, MaxTables=6, MaxHist=30, MaxSealed=2,
              BigVals={2, 3}, Ops=CORE1 | {"droprange"}, WriteBias=4),
-         drv(400, 400, dict(DRIVE_W, droprange=0.6)), hugeflush(6)],
+         drv(120, 300, dict(DRIVE_W, droprange=0.6)), hugeflush(6)],
         blobs=BLOBS, val_alphas=[1, 1, 2],
         regress=["findings/C09-blob-id-reuse.replay.json", "findings/C09-with-dropped-ondisk.replay.json"]),
     # C11 physical tuning and cache sharing
@@ -185,7 +185,7 @@ PROFILES = {
         c(Ops=CORE1, MaxSeq=5),
         [sim(20, 30, Keys={1, 2, 3}, MaxSeq=24, MaxTables=6, MaxHist=30, MaxSealed=2, Ops=CORE1 | {"snap"},
              MaxSnaps=1, WriteBias=4),
-         drv(100, 400, DRIVE_SNAP_W), deep(12)],
+         drv(40, 300, DRIVE_SNAP_W), deep(12)],
         phys_count=96, replicate=4, harness_args=["--share-pairs"], scans={"prob": 0.4, "burst": 2},
         val_alphas=[0, 1, 2], blobs=[None, BLOBS[1], BLOBS[7], None, BLOBS[6], BLOBS[0]]),
     # C13 weak deletes under the single-delete discipline
@@ -196,7 +196,7 @@ PROFILES = {
          drv(16, 160, DRIVE_W, weak_keys=(1, 2, 3))],
         c(Keys={1}, WeakKeys={1}, MaxSeq=9, MaxSealed=2, Ops=WEAK_OPS),
         [sim(80, 30, WeakKeys={1, 2}, MaxSeq=24, MaxTables=6, MaxHist=30, MaxSealed=2, Ops=WEAK_OPS, WriteBias=2),
-         drv(300, 400, DRIVE_W, weak_keys=(1, 2, 3))],
+         drv(100, 300, DRIVE_W, weak_keys=(1, 2, 3))],
         phys_count=8, key_alphas=[0, 2], regress=["findings/C13-weak-pair-drain.replay.json"]),
     # C14 bulk ingestion
     "C14": tree_profile(
@@ -209,7 +209,7 @@ PROFILES = {
         c(Ops=SNAP_OPS | {"ingest"}, MaxSeq=5, MaxSnaps=1, MaxHist=4, DestLevels={0, 6}),
         [sim(100, 30, Keys={1, 2, 3}, MaxSeq=26, MaxTables=6, MaxHist=30, MaxSnaps=2, MaxSealed=2,
              Ops=SNAP_OPS | {"reopen", "ingest"}, WriteBias=4),
-         drv(300, 400, dict(DRIVE_SNAP_W, ingest=2.5))],
+         drv(100, 300, dict(DRIVE_SNAP_W, ingest=2.5))],
         scans={"prob": 0.35, "burst": 1}),
     # C15 drop_range and clear
     "C15": tree_profile(
@@ -222,7 +222,7 @@ PROFILES = {
         c(Ops=SNAP_OPS | {"droprange", "clear"}, MaxSeq=5, MaxSnaps=2, MaxHist=4, DestLevels={0, 6}),
         [sim(100, 30, Keys={1, 2, 3}, MaxSeq=26, MaxTables=6, MaxHist=30, MaxSnaps=2, MaxSealed=2,
              Ops=SNAP_OPS | {"reopen", "droprange", "clear"}, WriteBias=4),
-         drv(300, 400, dict(DRIVE_SNAP_W, droprange=2.0, clear=0.5))],
+         drv(100, 300, dict(DRIVE_SNAP_W, droprange=2.0, clear=0.5))],
         regress=["findings/C15-leveled-empty-next-level.replay.json"],
         blobs=[None, None, None, BLOBS[1], BLOBS[0]], val_alphas=[0, 1, 2]),
     # C17 compaction filters
@@ -253,7 +253,7 @@ PROFILES = {
         c(Ops=CORE1 | {"snap"}, MaxSeq=6, MaxSnaps=1),
         [sim(80, 30, Keys={1, 2, 3}, MaxSeq=24, MaxTables=6, MaxHist=30, MaxSnaps=2, MaxSealed=2,
              BigVals={2, 3}, Ops=CORE1 | {"snap", "clear", "droprange", "ingest", "litter"}, WriteBias=4),
-         drv(300, 400, dict(DRIVE_SNAP_W, clear=0.4, droprange=0.8, ingest=0.5, major=1.0, reopen=0.8), litter=0.6)],
+         drv(100, 300, dict(DRIVE_SNAP_W, clear=0.4, droprange=0.8, ingest=0.5, major=1.0, reopen=0.8), litter=0.6)],
         blobs=[None, None] + BLOBS, val_alphas=[1], regress=["findings/C20-clear-leaves-files.replay.json"]),
     # C18 sequence number high-water marks
     "C18": tree_profile(
@@ -264,7 +264,7 @@ PROFILES = {
         c(Ops=CORE_OPS | {"ingest"}, MaxSeq=6),
         [sim(150, 30, Keys={1, 2, 3}, MaxSeq=24, MaxTables=6, MaxHist=30,
              Ops=CORE_OPS | {"ingest", "clear", "pair"}, WriteBias=4),
-         drv(400, 400, dict(DRIVE_W, ingest=0.7, clear=0.2, droprange=0.5))]),
+         drv(120, 300, dict(DRIVE_W, ingest=0.7, clear=0.2, droprange=0.5))]),
 }
 
 # design-level key-value separation model (spec/LsmBlobModel.tla) for C08 / C09
